@@ -59,6 +59,9 @@ def make_layouts(rng, tier):
     out.append(('xyz', real.make_layout([1, -1], names=['', 'x', 'y', 'xy']), True))
     out.append(('meta', real.make_layout([1, 1], names=['', 'a.b', 'a+', 'a.b+']), False))     # regex metacharacters: '+' is also an operator, str->parse not claimed
     out.append(('firstidx0', cf.Cl(2, 1, firstIdx=0)[0], True))
+    out.append(('firstidx3', cf.Cl(2, 1, firstIdx=3)[0], True))             # any first index other than the default 1 and 0
+    fk = int(rng.integers(2, 8))
+    out.append((f'firstidx_{fk}', cf.Cl(1, 1, firstIdx=fk)[0], True))
     out.append(('names_f', cf.Cl(3, names='f')[0], True))
     n = 3
     ids, first = gen.random_ids(rng, n, 'strings')
